@@ -28,7 +28,8 @@ void lv_op_destructValues(struct lv_op* self);
 void lv_op_deactivateSuccOpAndDestructValues(struct lv_op* self);
 
 enum { SL_pred, SL_succ, SL_values };
-#define CLEANUP_INIT (/*@EXPR cleanup_init*/)
+/* default member initialiser of cleanup_ (a member without initialiser stays nondeterministic) */
+#define CLEANUP_INIT_INTO(lhs) do { lv_cleanup_fn vf_i /*@EXPR cleanup_init*/; (lhs) = vf_i; } while (0)
 #define expectedCleanup (/*@EXPR expected_cleanup*/)
 
 #define VF_NSLOT 3
@@ -97,7 +98,7 @@ static void lv_call_cleanup(lv_cleanup_fn fp, struct lv_op* o) {
 /* _op::type constructor: func_, receiver_ from the mem-initialiser list, cleanup_ from its default member initialiser
  * (cleanup_init is extracted from it), then the body connects the predecessor into predOp_. */
 void lv_op_ctor(struct lv_op* self)
-__CPROVER_requires(self == &OP && VF_FRESH_CALL && VF_ALL_NONE && G.running == -1 && self->cleanup_ == CLEANUP_INIT)
+__CPROVER_requires(self == &OP && VF_FRESH_CALL && VF_ALL_NONE && G.running == -1)   /* cleanup_ holds whatever its default member initialiser gave it (harness) */
 __CPROVER_assigns(A_ALL)
 __CPROVER_ensures(G.throws == 0 ==> (OP_AFTER_CTOR && VF_DESTRUCTIBLE(&OP) && G.acts[SL_pred] == 1))   /* C02: the discriminator is initialised and destroys predOp_: the operation may be destroyed without being started */
 __CPROVER_ensures(G.throws != 0 ==> (VF_ALL_NONE && G.acts[SL_pred] == 0))                      /* connect threw: nothing constructed (the exception leaves connect(); ~type() does not run) */
@@ -209,7 +210,7 @@ static void h_havoc(void) {
   VF_CFG_nothrow_connect = vf_nb(); VF_CFG_nothrow_func = vf_nb();
 }
 void h_ctor(void) {
-  h_havoc(); lv_op_ctor(&OP);
+  h_havoc(); CLEANUP_INIT_INTO(OP.cleanup_); lv_op_ctor(&OP);
   VF_CANARY("after the constructor");
   if (G.throws) { VF_CANARY("connect(predecessor) can throw"); } else { VF_CANARY("constructor can succeed"); }
 }
@@ -294,9 +295,9 @@ void lemma_lv_lifecycle(void) {
   VF_P((o.s == LS_STARTED || o.p == LS_STARTED) ==> (t == T_PRED_CALLS || t == T_SUCC_CALLS), "lemma: while a child runs the operation only waits for it");
 }
 void lemma_lv_init(void) {
-  struct lst i; i.cl = CLEANUP_INIT; i.p = LS_ALIVE; i.s = LS_NONE; i.v = LS_NONE; i.ap = 1; i.as = 0; i.av = 0; i.dp = 0; i.ds = 0; i.dv = 0; i.completed = 0; i.destroyed = 0;
+  struct lst i; CLEANUP_INIT_INTO(i.cl); i.p = LS_ALIVE; i.s = LS_NONE; i.v = LS_NONE; i.ap = 1; i.as = 0; i.av = 0; i.dp = 0; i.ds = 0; i.dv = 0; i.completed = 0; i.destroyed = 0;
   VF_CANARY("lemma_lv_init reachable");
-  VF_P(CLEANUP_INIT == lv_op_deactivatePredOp, "lemma: the default member initialiser of cleanup_ names the member the constructor activates");
+  VF_P(i.cl == lv_op_deactivatePredOp, "lemma: the default member initialiser of cleanup_ names the member the constructor activates");
   VF_P(L_REACH(i) && L_DESTRUCTIBLE(i), "lemma: a freshly constructed operation satisfies the life-cycle invariant and may be destroyed unstarted");
   VF_P(expectedCleanup == lv_op_deactivateSuccOpAndDestructValues, "lemma: the cleanup the successor receiver expects is the one that destroys the successor operation and the values");
 }
